@@ -2,8 +2,10 @@ package harness
 
 import (
 	"context"
+	"math"
 	"encoding/binary"
 	"net"
+	"path/filepath"
 	"sync"
 	"testing"
 	"testing/synctest"
@@ -21,7 +23,7 @@ import (
 //
 //   input (18 filter_on ((proto v6 last start_ms group) ...))      proto: 0 udp 1 tcp-syn 2 icmp; group > 0: run is one
 //                                                                  of the queries of RunTraceroute request #group
-//   impl  ((status ((ttl ip dest rtt_negative) ...)) ...)          one entry per run, same order
+//   impl  ((status ((ttl ip dest rtt_negative rtt_us) ...)) ...)   one entry per run, same order
 
 type sharedNet struct {
 	mu      sync.Mutex
@@ -189,7 +191,7 @@ func hopsSx(hs []*result.TracerouteHop) sx {
 		if v4 := h.IPAddress.To4(); v4 != nil {
 			ip = v4
 		}
-		l = append(l, L(sxInt(int64(h.TTL)), sxBytes(ip), sxBool(h.IsDest), sxBool(h.RTT < 0)))
+		l = append(l, L(sxInt(int64(h.TTL)), sxBytes(ip), sxBool(h.IsDest), sxBool(h.RTT < 0), sxInt(int64(math.Round(h.RTT*1000)))))
 	}
 	return l
 }
@@ -332,6 +334,22 @@ func sharedScenarios(r *rng, n int, w *caseWriter, tags map[string]int, t *testi
 			tags["shared_with_filters"]++
 		}
 	}
+}
+
+func init() { labs["shared"] = labShared }
+
+func labShared(e labEnv) {
+	r := newRng(e.seed)
+	w, err := newCaseWriter(filepath.Join(e.out, "shared.cases"))
+	must(err)
+	tags := map[string]int{}
+	ns := 40
+	if e.thorough() {
+		ns = 400
+	}
+	sharedScenarios(r, ns, w, tags, e.t)
+	must(w.close())
+	writeDist(e, "shared", tags)
 }
 
 var _ = net.IPv4len
